@@ -1191,9 +1191,9 @@ impl<'a> FieldEntry<'a> {
     }
     fn make_ident(&self, prefix: &str) -> Ident {
         if let Some(ident) = &self.field.ident {
-            format_ident!("{}_{}", prefix, ident)
+            format_ident!("__{}_{}", prefix, ident)
         } else {
-            format_ident!("{}_{}", prefix, self.index)
+            format_ident!("__{}_{}", prefix, self.index)
         }
     }
     fn push_bounds_to(&self, use_bounds: bool, kind: DeriveItemKind, wcb: &mut WhereClauseBuilder) {
